@@ -171,6 +171,11 @@ func (c *conn) send(request data) error {
 func (c *conn) Send(ctx context.Context, onExit func()) {
 	var err error
 	defer func() {
+		// recover has to be called here, directly by the deferred function:
+		// inside Exit it would not stop a panic of the loop
+		if e := recover(); e != nil {
+			err = core.NewPanicError(e)
+		}
 		c.Exit(onExit, err)
 	}()
 	for {
@@ -202,6 +207,10 @@ func (c *conn) receive() (err error) {
 	default:
 		return
 	}
+	if len(body) < 4 {
+		err = core.InvalidResponseError{Response: body}
+		return
+	}
 	index, ok := parseHeader(body[:4])
 	body = body[4:]
 	if !ok {
@@ -224,6 +233,11 @@ func (c *conn) receive() (err error) {
 func (c *conn) Receive(ctx context.Context, onExit func()) {
 	var err error
 	defer func() {
+		// recover has to be called here, directly by the deferred function:
+		// inside Exit it would not stop a panic of the loop
+		if e := recover(); e != nil {
+			err = core.NewPanicError(e)
+		}
 		c.Exit(onExit, err)
 	}()
 	for {
